@@ -1,7 +1,7 @@
 """C04 - merklized scripts: only committed branches run, and every committed branch can."""
 from __future__ import annotations
 import hashlib
-from .. import env, hyp, optable as O, refasm as R, render
+from .. import env, hyp, optable as O, refasm as R, render, monitors
 from ..recorder import Rec, CID, push, observed
 from .c01 import script_tree
 from hypothesis import strategies as st
@@ -446,6 +446,9 @@ def rand_case(draw):
 
 def task_random(ctx):
     def one(t):
+        if any(b not in BODIES and len(b) <= 200 and not monitors.within_budget([b]) for b in t[1]):
+            ctx.count('skipped:work-explodes (step budget)')
+            return
         try:
             _do_tree(ctx, *t)
         except ValueError:
